@@ -493,3 +493,40 @@ func checkDstRegisterFile(c *core.Ctx, t *InstTables) {
 		}
 	}
 }
+
+// R04.25: the packed (VOP3P) instructions have no ABS field.
+func checkVOP3PModifiers(c *core.Ctx, t *InstTables) {
+	st := c.Rule("R04.25", "bits 10..8 of a packed (VOP3P, v_pk_*) instruction are NEG_HI, not ABS, and bits 60..59 are OP_SEL_HI, not OMOD: for every v_pk_* row decoded by decodeVOP3a, the blocks the decoder executes for that opcode (opReach) neither store Inst.Abs / Inst.Omod from those bits nor derive the per-source Abs flags from them", 3)
+	fn := c.SSAFunc(instsPkg, "Disassembler.decodeVOP3a")
+	if fn == nil {
+		return
+	}
+	isOp := isLoadOfField("Opcode")
+	for _, r := range t.Rows {
+		name := strings.TrimSpace(r.Name)
+		if r.Format != "VOP3a" || !strings.HasPrefix(name, "v_pk_") {
+			continue
+		}
+		st.Instances++
+		c.MarkAnalysed(fn)
+		var bad []string
+		for _, b := range opReach(fn, isOp, r.Opcode) {
+			for _, in := range b.Instrs {
+				if s, ok := in.(*ssa.Store); ok {
+					if f := instFieldOfStore(s); f == "Abs" || f == "Omod" {
+						bad = append(bad, "Inst."+f)
+					}
+				}
+				if call, ok := in.(*ssa.Call); ok && call.Call.StaticCallee() != nil && call.Call.StaticCallee().Name() == "parseAbs" {
+					bad = append(bad, "parseAbs")
+				}
+			}
+		}
+		bad = uniqueStrings(bad)
+		st.Ob(len(bad) == 0)
+		if len(bad) > 0 {
+			c.Report(core.Finding{Rule: "R04.25", Pkg: instsPkg, Func: "Disassembler.decodeVOP3a", Detail: "vop3p-modifiers:" + name, Pos: c.Position(r.Pos),
+				Msg: fmt.Sprintf("%s (VOP3P opcode %d) is decoded with %s: its NEG_HI bits become absolute-value modifiers of the sources and its OP_SEL_HI bits an output modifier", name, r.Opcode, strings.Join(bad, ", "))})
+		}
+	}
+}
